@@ -191,8 +191,96 @@ def custom_type_fallback(ctx, rng):
                 ctx.violation("fallback", "custom-type-parse-differs", {"compiled": res[0], "interpreted": res[1]})
 
 
+def explicit_offsets(ctx, n):
+    """Structures built through the Python API with explicit field offsets (forward gaps, overlays, fields going
+    back into earlier bytes): both readers must still agree."""
+    from dissect.cstruct import Field, compiler
+
+    for it in range(n):
+        rng = ctx.rng("explicit-offsets", it)
+        endian = rng.choice("<>")
+        align = rng.random() < 0.3
+        spec = []
+        pos = 0
+        for i in range(rng.randint(2, 7)):
+            kind = rng.choice(["uint8", "uint16", "uint32", "uint64", "uint24", "char4", "u16x3", "inner", "cstr",
+                               "bits", "float"])
+            mode = rng.random()
+            if mode < 0.35:
+                off = None
+            elif mode < 0.7:
+                off = pos + rng.randint(0, 6)            # forward, possibly with a gap
+            elif mode < 0.85:
+                off = rng.randint(0, max(0, pos))        # back into what was read already (overlay)
+            else:
+                off = 0
+            if kind in ("cstr",) and i != rng.randint(0, 6):
+                kind = "uint16"
+            spec.append((f"f{i}", kind, off))
+            size = {"uint8": 1, "uint16": 2, "uint32": 4, "uint64": 8, "uint24": 3, "char4": 4, "u16x3": 6, "inner": 3,
+                    "cstr": 4, "bits": 2, "float": 4}[kind]
+            pos = (off if off is not None else pos) + size
+        built = []
+        for compiled in (True, False):
+            cs = lib.cstruct(endian=endian)
+            cs.load("struct inner { uint8 a; uint16 b; };")
+            types = {"uint8": cs.uint8, "uint16": cs.uint16, "uint32": cs.uint32, "uint64": cs.uint64, "uint24": cs.uint24,
+                     "char4": cs.char[4], "u16x3": cs.uint16[3], "inner": cs.inner, "cstr": cs.char[None],
+                     "float": cs.float}
+            fields = []
+            for name, kind, off in spec:
+                if kind == "bits":
+                    fields.append(Field(name, cs.uint16, bits=5, offset=off))
+                    fields.append(Field(name + "b", cs.uint16, bits=11))
+                else:
+                    fields.append(Field(name, types[kind], offset=off))
+            try:
+                st = cs._make_struct("T", fields, align=align)
+                if compiled:
+                    st = compiler.compile(st)
+                built.append(st)
+            except Exception as e:  # noqa: BLE001
+                built.append(e)
+        ctx.evaluation(("explicit-offsets", repr(spec), endian, align))
+        ctx.cell("explicit-offsets")
+        if isinstance(built[0], Exception) or isinstance(built[1], Exception):
+            if isinstance(built[0], Exception) != isinstance(built[1], Exception):
+                ctx.violation("load", "explicit-offset-structure-builds-in-one-mode-only",
+                              {"spec": spec, "compiled": repr(built[0]), "interpreted": repr(built[1])})
+            continue
+        Tc, Ti = built
+        if not Tc.__compiled__:
+            ctx.event("explicit_offsets_fallback")
+        if (Tc.size, Tc.alignment, [f.offset for f in Tc.__fields__]) != (Ti.size, Ti.alignment,
+                                                                        [f.offset for f in Ti.__fields__]):
+            ctx.violation("layout", "explicit-offset-layout-differs", {"spec": spec, "align": align})
+            continue
+        for trial in range(4):
+            data = gen.arbitrary_bytes(rng, 96, rng.choice((0, 2, 3)))
+            for p in (0, 16):
+                ra, rb = outcome(Tc, data, p), outcome(Ti, data, p)
+                ctx.evaluation(("explicit-offsets", repr(spec), endian, align, data.hex(), p))
+                if ra[0] != rb[0]:
+                    ctx.violation("outcome", "explicit-offsets:only-one-reader-raises",
+                                  {"spec": spec, "endian": endian, "align": align, "data": data.hex(), "offset": p,
+                                   "compiled": repr(ra[1])[:200], "interpreted": repr(rb[1])[:200]})
+                elif ra[0] == "ok":
+                    va = {f._name: repr(lib.unwrap(getattr(ra[1], f._name))) for f in Tc.__fields__}
+                    vb = {f._name: repr(lib.unwrap(getattr(rb[1], f._name))) for f in Ti.__fields__}
+                    if va != vb or ra[2] != rb[2]:
+                        ctx.violation("value", "explicit-offsets:compiled-vs-interpreted",
+                                      {"spec": spec, "endian": endian, "align": align, "data": data.hex(), "offset": p,
+                                       "compiled": va, "interpreted": vb, "tell": [ra[2], rb[2]]})
+                    elif dict(ra[1]._sizes) != dict(rb[1]._sizes):
+                        common = set(ra[1]._sizes) & set(rb[1]._sizes)
+                        if any(ra[1]._sizes[k] != rb[1]._sizes[k] for k in common):
+                            ctx.violation("sizes", "explicit-offsets:_sizes-differ", {"spec": spec})
+
+
 def run(ctx):
     shapes = {"fmt": set(), "flags": {}}
+    if ctx.shard % 4 == 3:
+        explicit_offsets(ctx, 60 if not ctx.thorough else 1500)
     n = N_CASES[ctx.tier]
     if ctx.shard == 0:
         custom_type_fallback(ctx, ctx.rng("custom"))
